@@ -30,6 +30,7 @@ def main():
         from . import inject
         reach = inject.Reach().start()
         mod = importlib.import_module("vpkg.checks." + a.prop.lower())
+        ctx.mult = int(getattr(mod, "THOROUGH_MULT", 1))
         if a.replay:
             v = json.load(open(a.replay))
             mod.replay(ctx, v["monitor"], unjz(v["case"]))
